@@ -21,7 +21,7 @@ use spec::rng::Rng;
 use std::fmt::Write as _;
 
 /// (name, properties whose statement covers the operation)
-pub const OPS: [(&str, &[&str]); 20] = [
+pub const OPS: [(&str, &[&str]); 22] = [
     ("v1::Header::try_from(&[u8])", &["C01", "C04", "C05", "C12", "C16", "C18"]),
     ("v1::Header::try_from(&str)", &["C01", "C05", "C12", "C16", "C18"]),
     ("str::parse::<v1::Header>", &["C01", "C12", "C16", "C18"]),
@@ -42,6 +42,8 @@ pub const OPS: [(&str, &[&str]); 20] = [
     ("v1 header parsed here, used on another thread", &["C15", "C16", "C08"]),
     ("v2 header parsed here, used on another thread", &["C14", "C11", "C13", "C16"]),
     ("builder filled here, built on another thread", &["C09", "C10"]),
+    ("values written into a writer that is over its limit (refused) and into an empty one", &["C20"]),
+    ("clone_from into an owned header that held something else", &["C01", "C02", "C14", "C15", "C16"]),
 ];
 
 fn addr_from(x: &[u8]) -> (v1::Addresses, v2::Addresses, (std::net::SocketAddr, std::net::SocketAddr)) {
@@ -233,6 +235,56 @@ pub fn run_op(op: usize, x: &[u8]) -> String {
             let (a1, _, _) = addr_from(x);
             format!("{}|{:>70}|{}", a1, a1, v1::Addresses::Unknown)
         }
+        20 => {
+            // a refused write must leave nothing behind, here or anywhere else
+            let (_, a2, _) = addr_from(x);
+            let k = x.first().copied().unwrap_or(1);
+            let mut full = v2::Writer::from(vec![0x5Au8; 65_552]);
+            let r1 = a2.write_to(&mut full).map_err(|e| e.kind());
+            let r2 = (k, &x[..x.len().min(12)]).write_to(&mut full).map_err(|e| e.kind());
+            let r3 = (k as u32).write_to(&mut full).map_err(|e| e.kind());
+            let left = full.finish().len();
+            format!("{:?}|{:?}|{:?}|{}|{:?}|{:?}", r1, r2, r3, left, a2.to_bytes().map_err(|e| e.kind()), v2::TypeLengthValue::new(k, &x[..x.len().min(12)]).to_bytes().map_err(|e| e.kind()))
+        }
+        21 => {
+            let mut out = String::new();
+            if let Ok(h) = v1::Header::try_from(x) {
+                let mut slot = crate::c03::OTHER_V1.with(|o| o.clone());
+                slot.clone_from(&h);
+                let _ = write!(out, "{}|{:?}|{}", render_v1(&slot), slot, slot == h);
+                let mut slot2 = crate::c03::OTHER_V1.with(|o| o.clone());
+                slot2.clone_from(&h.to_owned());
+                let _ = write!(out, "|{}|{}", render_v1(&slot2), slot2 == h);
+                if slot != h || slot2 != h || render_v1(&slot) != render_v1(&h) || render_v1(&slot2) != render_v1(&h) {
+                    let _ = write!(out, "|CLONE-FROM-MISMATCH: the source renders as {}", render_v1(&h));
+                }
+            }
+            if let Ok(h) = v2::Header::try_from(x) {
+                // a longer and a shorter owned header as the target
+                let mut long = spec::v2::SIG.to_vec();
+                long.extend_from_slice(&[0x21, 0x11, 0, 40]);
+                long.extend_from_slice(&[0xAB; 40]);
+                for img in [&long[..], &long[..16]] {
+                    let mut t = img.to_vec();
+                    if t.len() == 16 {
+                        t[13] = 0;
+                        t[15] = 0;
+                    }
+                    if let Ok(o) = v2::Header::try_from(&t[..]).map(|o| o.to_owned()) {
+                        let mut slot = o.clone();
+                        slot.clone_from(&h);
+                        let _ = write!(out, "|{}|{}", render_v2(&slot), slot == h);
+                        let mut slot2 = o;
+                        slot2.clone_from(&h.to_owned());
+                        let _ = write!(out, "|{}|{}", render_v2(&slot2), slot2 == h);
+                        if slot != h || slot2 != h || render_v2(&slot) != render_v2(&h) || render_v2(&slot2) != render_v2(&h) || slot.as_bytes() != h.as_bytes() || slot2.as_bytes() != h.as_bytes() {
+                            let _ = write!(out, "|CLONE-FROM-MISMATCH: the source renders as {}", render_v2(&h));
+                        }
+                    }
+                }
+            }
+            out
+        }
         17 => match v1::Header::try_from(x).map(|h| h.to_owned()) {
             Ok(o) => on_helper(Job::V1(o)),
             Err(_) => "-".into(),
@@ -340,6 +392,24 @@ pub fn judge_soup(id: &str, idx: u64, seed: u64, rec: &mut Recorder) {
     };
     rec.events(2 * k as u64);
     let mut reported = false;
+    // the one operation with a verdict of its own: `clone_from` makes the target equal to its source
+    for (n, &(op, j)) in seq.iter().enumerate() {
+        if op == 21 && OPS[op].1.contains(&id) && !reported {
+            if let Some(at) = fwd[n].find("CLONE-FROM-MISMATCH") {
+                reported = true;
+                let lo = at.saturating_sub(160);
+                let lo = (lo..=at).find(|&i| fwd[n].is_char_boundary(i)).unwrap_or(at);
+                let hi = (at + 200).min(fwd[n].len());
+                let hi = (hi..=fwd[n].len()).find(|&i| fwd[n].is_char_boundary(i)).unwrap_or(fwd[n].len());
+                rec.violation(
+                    "clone-from-differs",
+                    format!("soup:{}:{}", idx, seed),
+                    "soup|clone_from".into(),
+                    format!("clone_from into an owned header that held something else does not give a copy of the header parsed from {:?}: ...{}...", spec::json::show(&p[j], 60), &fwd[n][lo..hi]),
+                );
+            }
+        }
+    }
     for (n, &(op, j)) in seq.iter().enumerate() {
         let relevant = OPS[op].1.contains(&id) || (id == "C03" && (fwd[n].contains("PANIC") || iso[n].contains("PANIC")));
         let mut other = &iso[n];
